@@ -151,13 +151,20 @@ def get_witness_facts():
 
 def _prune(config, keep):
     pre = 'facts-%s-' % config
+    old = []
     for f in os.listdir(CACHE):
         p = os.path.join(CACHE, f)
         if f.startswith(pre) and p != keep:
             try:
-                os.remove(p)
+                old.append((os.path.getmtime(p), p))
             except OSError:
                 pass
+    old.sort(reverse=True)
+    for _, p in old[24:]:
+        try:
+            os.remove(p)
+        except OSError:
+            pass
 
 
 if __name__ == '__main__':
